@@ -704,6 +704,12 @@ func (e *dbEngine) Generate(profile string, seed uint64, tier string) (*Plan, er
 		if profile == "flushdur" && g.r.IntN(2) == 0 {
 			g.cfg.DisableWAL = true
 		}
+		if profile == "fmv" && g.r.IntN(3) == 0 {
+			// a few failing creates / syncs of marker files and directory syncs:
+			// a ratchet that fails must leave memory and disk agreeing, and one
+			// that succeeds (also as a retry) must be durable
+			faults = g.genMarkerFaults()
+		}
 		if profile == "flushdur" && g.r.IntN(3) == 0 {
 			// "after Flush returns without error": a third of the plans make a
 			// few syncs fail, so that some flushes fail (and are retried) and
